@@ -168,7 +168,7 @@ func ExpressionFromProto(node *pb.NodeProto) (Expression, error) {
 }
 
 func expressionFromProto(node *pb.NodeProto) (Expression, error) {
-	switch n := node.Node.(type) {
+	switch n := node.GetNode().(type) {
 	case *pb.NodeProto_Symbol:
 		return SymbolExpressionFromProto(node)
 	case *pb.NodeProto_Call:
@@ -209,7 +209,7 @@ func expressionFromProto(node *pb.NodeProto) (Expression, error) {
 			return Expression{}, fmt.Errorf("can't convert %T from literal proto", n.Literal.Value)
 		}
 	default:
-		return Expression{}, fmt.Errorf("can't convert expression from proto %T", node.Node)
+		return Expression{}, fmt.Errorf("can't convert expression from proto %T", n)
 	}
 }
 
